@@ -18,6 +18,8 @@ void vs_note(const char *fmt, ...);
 /* quarantine: after vs_retire(p,sz) every hooked access into [p,p+sz) is reported as UAF */
 void vs_retire(const void *p, size_t sz);
 void vs_unretire(const void *p);
+/* plain stores into [p,p+sz) by code compiled with -fsanitize=thread (+ plain_hooks.c) become scheduling points and buffered stores */
+void vs_plain_track(const void *p, size_t sz);
 /* no preemption / no events between begin and end (sub-component treated as atomic) */
 void vs_atomic_begin(void);
 void vs_atomic_end(void);
@@ -25,6 +27,8 @@ void vs_quiet_begin(void);
 void vs_quiet_end(void);
 /* a handler to run on thread t at a '^t' choice */
 void vs_set_signal_handler(void (*fn)(int));
+/* signals chosen while the thread holds m stay pending until it unlocks m */
+void vs_defer_signals_while_holding(pthread_mutex_t *m);
 extern unsigned long vs_create_fail_mask; /* bit k: the k-th pthread_create of the run fails with EAGAIN */
 extern int vs_tso;        /* 1: simulate store buffers (default), 0: SC */
 extern int vs_strict;     /* 1: RMW/fence/lock/futex enabled only on an empty own buffer (default) */
